@@ -189,7 +189,7 @@ func TestC29(t *testing.T) {
 			inFile += len(script)
 			nTables++
 			for j, c := range ok {
-				if j == li || (tier == "quick" && (j+rep)%2 == 0) {
+				if j == li || (j+rep)%2 == 0 {
 					continue
 				}
 				rotate()
